@@ -2346,6 +2346,24 @@ simnet_stall_conn(int fd, int dir, int on)
 	}
 }
 
+// stall/heal one direction of every TCP connection whose server side is
+// bound to `port` (toward_server: data flowing client -> server)
+void
+simnet_stall_port(uint16_t port, int toward_server, int on)
+{
+	for (Conn *c : *N.conns) {
+		if (c->addr[1].port != port || c->addr[1].family == AF_UNIX)
+			continue;
+		int side = toward_server ? 1 : 0; // h[side] = what that side receives
+		if (on) {
+			c->h[side].stalled = true;
+			sim_fault_fired("conn_stall", 1);
+		} else if (c->h[side].stalled) {
+			release_half(c, side);
+		}
+	}
+}
+
 void
 simnet_partition(uint32_t a, uint32_t b, int on)
 {
